@@ -462,7 +462,7 @@ where
         crate::verif::hit(crate::verif::Event::TdQuantileRight);
         let c_last = &self.centroids[self.centroids.len() - 1];
         cum -= 0.5 * c_last.count;
-        let delta = s - 0.5 * c_last.count;
+        let delta = 0.5 * c_last.count;
         let t = (limit - cum) / delta;
         Self::interpolate(c_last.mean(), self.max, t)
     }
